@@ -76,6 +76,11 @@ FINDINGS = [
      "a type nested in a structure and named `MaxSizeInBytes`/`MinSizeInBytes`/`IntrinsicSizeInBytes` (…Bits) "
      "clashes with the constant's free function in `namespace <Struct>`",
      H + "struct Foo:\n  struct MaxSizeInBytes:\n    0 [+1] UInt q\n  0 [+1] UInt y\n", ()),
+    ("structure-named-Storage-or-ValueType",
+     "a structure named `Storage` or `ValueType`: the constant virtual fields' `Read()` is generated as "
+     "`return <Struct>::<field>();`, and inside `Generic<Struct>View<Storage>::<VirtualView>` that name finds the "
+     "template parameter `Storage` / the nested `using ValueType` instead of `namespace <Struct>`",
+     H + "struct Storage:\n  0 [+1] UInt y\n", ()),
     ("constant-condition-choice-static-assert",
      "`let v = true ? a : b` (constant condition, branches of different C++ integer types): runtime static_assert "
      "\"Choice's IntermediateT should be the same as ResultT\" fails when `v()` is used (found by builder bounds)",
@@ -119,6 +124,8 @@ HEADER_ONLY_KEYS = {"virtual-field-names-equal-after-camel-conversion", "validat
 def clash_key(c):
     ident, a, b = c
     pair = {a, b}
+    if "own namespace reference" in pair:
+        return "structure-named-Storage-or-ValueType"
     if pair == {"virtual view class"}:
         return "virtual-field-names-equal-after-camel-conversion"
     if pair == {"validator"}:
@@ -378,12 +385,17 @@ def run_cases(chk, cases, model_ok, tier, workers):
     for i, c in enumerate(prepared):
         if c.status != "ok":
             continue
-        clash_predicted = False
+        clash_predicted, pkeys = False, set()
         if answers is not None and spans[i] is not None:
-            clash_predicted = any(a not in ("[]", "bad-op") for a in answers[spans[i][0]:spans[i][1]])
+            for a in answers[spans[i][0]:spans[i][1]]:
+                if a not in ("[]", "bad-op"):
+                    clash_predicted = True
+                    pkeys |= {clash_key(tuple(cl)) for cl in json.loads(a)}
         if clash_predicted and not c.pinned:
-            # the model says the header itself is ill-formed: one cheap header-only compile decides
-            plan = [("header-only:c++14:traits", {"src_text": c.header_only, "name": "c07_%d_h" % i, "std": "c++14",
+            # the model says the header is ill-formed: one compile decides — of the header alone when
+            # every predicted clash is a redeclaration, of the driver when it shows at instantiation
+            src = c.header_only if pkeys <= HEADER_ONLY_KEYS else c.driver_t
+            plan = [("clash-check:c++14:traits", {"src_text": src, "name": "c07_%d_h" % i, "std": "c++14",
                                                    "sanitize": False, "opt": "-O0", "extra": ["-I" + c.outdir + "/t"],
                                                    "syntax_only": True})]
         else:
